@@ -1,7 +1,13 @@
+import Oracle.C01
+import Oracle.C05
+import Oracle.C06
+import Oracle.C07
 import Oracle.C08
 import Oracle.E2E
+import Oracle.E2EM
 import Oracle.C09
 import Oracle.C10
+import Oracle.C11
 import Oracle.C12
 import Oracle.C13
 import Oracle.C14
@@ -18,7 +24,7 @@ def dispatch (line : String) : String :=
   match words line with
   | [] => "bad-op"
   | cmd :: args =>
-    let hs : List (String → List String → Option String) := [E2E.handle, C08.handle, C09.handle, C10.handle, C12.handle, C13.handle, C14.handle, C15.handle, C16.handle, C17.handle, C18.handle, C19.handle, C20.handle]
+    let hs : List (String → List String → Option String) := [E2E.handle, E2EM.handle, C05.handle, C01.handle, C06.handle, C07.handle, C08.handle, C09.handle, C10.handle, C11.handle, C12.handle, C13.handle, C14.handle, C15.handle, C16.handle, C17.handle, C18.handle, C19.handle, C20.handle]
     match hs.findSome? (fun h => h cmd args) with
     | some r => r
     | none => "bad-op"
